@@ -85,14 +85,9 @@ Definition repo_m_DeleteRuleSet : list stmt :=
    SEv (EUnlock 1);
    SReturn].
 
-(* Count; locals:  *)
-Definition repo_m_Count : list stmt :=
-  [SEv (ERead 1);
-   SReturn].
+Definition repo_method_names : list string := ["FindRule"%string; "AddRuleSet"%string; "UpdateRuleSet"%string; "DeleteRuleSet"%string].
 
-Definition repo_method_names : list string := ["FindRule"%string; "AddRuleSet"%string; "UpdateRuleSet"%string; "DeleteRuleSet"%string; "Count"%string].
-
-Definition repo_prog : list (list stmt) := [repo_m_FindRule; repo_m_AddRuleSet; repo_m_UpdateRuleSet; repo_m_DeleteRuleSet; repo_m_Count].
+Definition repo_prog : list (list stmt) := [repo_m_FindRule; repo_m_AddRuleSet; repo_m_UpdateRuleSet; repo_m_DeleteRuleSet].
 
 Definition repo_rank (m : lock) : nat :=
   match m with
